@@ -5,15 +5,25 @@ with adjacent / overlapping / nested ranges and metacharacter members, compared 
 interesting code points, EmptyClassException iff nothing is left, under several hash seeds.
 The interval core (reduce_ranges, reduce_chars, subtract_ranges) is additionally under contract (VCs with loop
 invariants over lists-as-maps) where the verifier can process the current source; see the evidence."""
+from .. import vcrun
 from . import _cls
 
-LEVEL = "exploration"
+LEVEL = "proof"
+K = "pregex.core.classes.__Class."
+INTERVAL = [K + "__or.<locals>.reduce_ranges", K + "__or.<locals>.reduce_chars", K + "__sub.<locals>.subtract_ranges"]
 
 
 def run(rep, tier):
+    # interval core: VCs with loop invariants over lists-as-maps, all list lengths, all code points
+    vcrun.run_functions(rep, INTERVAL, tier)
+    for q in INTERVAL:
+        vcrun.run_bounded(rep, q, tier, "run-time evaluation of the proved contract on the real nested function (cross-check; not "
+                                       "counted as proof)", limit=1500 if tier == "quick" else 40000)
     _cls.run_named(rep)
     _cls.run_bounded(rep, tier, "algebra", "B3",
                      "S(A|B) = S(A) u S(B); S(A-B) = S(A) \\ S(B) and EmptyClassException iff empty; S(~A) = U \\ S(A), ~~A = A; "
                      "negated classes: the same on the excluded sets; results compile")
-    rep.trusted += ["R7 bracket expressions"]
+    rep.trusted += ["R7 bracket expressions", "E3 characters as code points, E6 lists as maps, E7 sets as lists in arbitrary order",
+                    "assumed contract of __split_range ('a-z' -> ['a','z']); bounded-checked by B2/B3",
+                    "z3 5.1 / 4.8 (quantified views: sets as predicates with triggers; equalities proved as two skolemised inclusions)"]
     rep.assumptions += ["code points that only the Unicode-aware shorthands add are left unspecified (masked)"]
